@@ -4,6 +4,8 @@ import (
 	"fmt"
 	"strings"
 
+	"go.pennock.tech/tabular"
+
 	"go.pennock.tech/tabular/auto"
 	"go.pennock.tech/tabular/texttable/decoration"
 )
@@ -63,7 +65,11 @@ func (engC17) Assumptions() []string {
 func genRegStep(r *Rng, npool int) Step {
 	switch r.Pick([]int{5, 5, 2, 2}) {
 	case 0:
-		return Step{Op: "reg", A: r.Intn(npool), B: r.Intn(20)}
+		st := Step{Op: "reg", A: r.Intn(npool), B: r.Intn(20)}
+		if r.Chance(1, 12) {
+			st.D = 1 // the empty decoration
+		}
+		return st
 	case 1:
 		return Step{Op: "named", A: r.Intn(npool + 6 + 8)}
 	case 2:
@@ -125,6 +131,7 @@ func runRegTasks(s *Script, keepLog bool, probe func(rr *RegRun, task int, st *S
 
 func (engC17) Exec(s *Script, keepLog bool) *Result {
 	rr, sc, log, _ := runRegTasks(s, keepLog, nil)
+	defer rr.Close()
 	res := &Result{Probes: rr.Probes, Faults: map[string]int{}}
 	// finale: registrations have finished
 	for i := range rr.pool {
@@ -256,6 +263,7 @@ func (engC19) Exec(s *Script, keepLog bool) *Result {
 		}
 		return rr.ProbeC19(reg, inflight, st.A)
 	})
+	defer rr.Close()
 	res := &Result{Probes: rr.Probes, Faults: map[string]int{}}
 	if len(sc.Panics) > 0 {
 		res.Violation = &Violation{Property: "C19", Signature: "C19/panic:" + panicFrame(sc.Panics[0]), Detail: sc.Panics[0]}
@@ -341,6 +349,10 @@ func (engC16) Gen(r *Rng, s *Script, idx int, tier string) {
 			// a tall table (a library might treat big tables differently)
 			steps = append(steps, Step{Op: "bulkRows", A: r.Range(96, 130), B: r.Range(1, 3)})
 			s.Config["tall_table"] = 1
+		}
+		if r.Chance(1, 3) {
+			// copies of one prepared cell value (with properties) go into several tables
+			steps = append(steps, Step{Op: "rowItems", Items: genItems(r, 1, 1, &ctr)}, Step{Op: "addTemplate", A: 0, B: r.Intn(4)})
 		}
 		if r.Chance(2, 3) {
 			// values that independent tables typically have in common
@@ -430,12 +442,15 @@ func isRegistryTask(steps []Step) bool {
 }
 
 // runTableTask executes one task script in its own World.
-func runTableTask(steps []Step, y Yielder, log *EventLog, tr *taskResult) {
+func runTableTask(steps []Step, y Yielder, log *EventLog, tr *taskResult, tmpl ...*tabular.Cell) {
 	kind := 0
 	if len(steps) > 0 && steps[0].Op == "new" {
 		kind = pick(7, steps[0].A)
 	}
 	w := NewWorld(kind, "utf8-light", y, log)
+	if len(tmpl) > 0 {
+		w.Template = tmpl[0]
+	}
 	for i := range steps {
 		st := &steps[i]
 		switch st.Op {
@@ -470,6 +485,7 @@ func (engC16) Exec(s *Script, keepLog bool) *Result {
 	installHooks()
 	log := NewEventLog(keepLog)
 	res := &Result{Probes: map[string]int{}, Faults: map[string]int{}}
+	tmpl := NewTemplateCell()
 	// solo executions: each task alone, no scheduler
 	solo := make([]*taskResult, len(s.Tasks))
 	for t, steps := range s.Tasks {
@@ -483,7 +499,7 @@ func (engC16) Exec(s *Script, keepLog bool) *Result {
 					solo[t].panic = fmt.Sprint(r)
 				}
 			}()
-			runTableTask(cloneSteps(steps), nil, nil, solo[t])
+			runTableTask(cloneSteps(steps), nil, nil, solo[t], tmpl)
 		}()
 		if solo[t].panic != "" {
 			// a panic with no concurrency involved belongs to C02/C09
@@ -504,7 +520,7 @@ func (engC16) Exec(s *Script, keepLog bool) *Result {
 			continue
 		}
 		conc[t] = &taskResult{}
-		sc.Go(func(y Yielder) { runTableTask(steps, y, log, conc[tt]) })
+		sc.Go(func(y Yielder) { runTableTask(steps, y, log, conc[tt], tmpl) })
 	}
 	sc.Run()
 	nTables := 0
